@@ -3,7 +3,7 @@
     Owner: prover-confirm. *)
 From stdpp Require Import gmap list numbers sorting.
 From Coq Require Import ZArith NArith.
-From Verif Require Import Tx.Store Tx.Ledger Tx.Hist Tx.Inv.
+From Verif Require Import Tx.Store Tx.Ledger Tx.Hist Tx.Inv Tx.InvRemove.
 Local Open Scope Z_scope.
 
 (** * A. Generic facts: sums over [map_to_list], list helpers *)
@@ -728,14 +728,14 @@ Section phase3.
     - simpl. constructor; try reflexivity; simpl.
       + intros i op h' bh' cv Hin. inversion Hin.
       + intros i op h' bh' Hin. inversion Hin.
-    - rewrite fmap_app in Hnd1, Hnd2. simpl in Hnd1, Hnd2.
+    - rewrite fmap_app in Hnd1. rewrite fmap_app in Hnd2. simpl in Hnd1, Hnd2.
       apply NoDup_app in Hnd1. destruct Hnd1 as (Hnd1 & Hi & _).
       apply NoDup_app in Hnd2. destruct Hnd2 as (Hnd2 & Hop & _).
       assert (Hinew : i ∉ iis.*1). { intros Hin. apply (Hi i Hin). left. }
       assert (Hopnew : op ∉ iis.*2). { intros Hin. apply (Hop op Hin). left. }
       assert (Hcred' : ∀ i0 op0 h' bh', (i0, op0) ∈ iis → unspent s !! op0 = Some (h', bh') →
                 ∃ cv, credits s !! (op0.1, h', bh', op0.2) = Some cv ∧ c_amt cv = amount_of U op0).
-      { intros i0 op0 h' bh' Hin. apply Hcred. apply elem_of_app. left. exact Hin. }
+      { intros i0 op0 h' bh' Hin. apply (Hcred i0). apply elem_of_app. left. exact Hin. }
       specialize (IH Hnd1 Hnd2 Hcred').
       rewrite foldl_snoc. destruct (foldl (umb_in h bh bhash) (s, nb0) iis) as [s1 nb] eqn:Hfold.
       destruct IH as [Hb Ht Hu Hmc Hmi Hl Hus Hco Hcs Hdo Hdn Hbal]. simpl in *.
@@ -769,7 +769,7 @@ Section phase3.
              ++ exfalso. apply Hin'. apply Hmem2. left. exact Hin.
              ++ exfalso. apply Hmem2 in Hin'. destruct Hin'; contradiction.
         * intros ck' Hck'. rewrite lookup_insert_ne.
-          -- apply Hco. intros i0 op0 h0 bh0 Hin. apply Hck'. apply Hmem. left. exact Hin.
+          -- apply Hco. intros i0 op0 h0 bh0 Hin. apply (Hck' i0). apply Hmem. left. exact Hin.
           -- intros Heq. apply (Hck' i op h' bh'); [apply Hmem; right; auto|exact Hop_s|]. symmetry. exact Heq.
         * intros i0 op0 h0 bh0 cv0 Hin Hu0 Hcv0. apply Hmem in Hin. destruct Hin as [Hin|[-> ->]].
           -- rewrite lookup_insert_ne; [eapply Hcs; eassumption|].
@@ -793,8 +793,8 @@ Section phase3.
           destruct (decide (op' ∈ iis.*2)) as [Hin|Hin];
             destruct (decide (op' ∈ (iis ++ [(i, op)]).*2)) as [Hin'|Hin']; try reflexivity.
           -- exfalso. apply Hin'. apply Hmem2. left. exact Hin.
-          -- apply Hmem2 in Hin'. destruct Hin' as [?|->]; [contradiction|]. symmetry. exact Hop_s.
-        * intros ck' Hck'. apply Hco. intros i0 op0 h0 bh0 Hin. apply Hck'. apply Hmem. left. exact Hin.
+          -- apply Hmem2 in Hin'. destruct Hin' as [? | ->]; [contradiction|]. exact Hop_s.
+        * intros ck' Hck'. apply Hco. intros i0 op0 h0 bh0 Hin. apply (Hck' i0). apply Hmem. left. exact Hin.
         * intros i0 op0 h0 bh0 cv0 Hin Hu0 Hcv0. apply Hmem in Hin. destruct Hin as [Hin|[-> ->]].
           -- eapply Hcs; eassumption.
           -- rewrite Hop_s in Hu0. discriminate.
@@ -803,4 +803,698 @@ Section phase3.
           -- eapply Hdn; eassumption.
           -- rewrite Hop_s in Hu0. discriminate.
   Qed.
+
+  (** ** the loop that moves the unmined credits of the transaction *)
+  Record PostMc (s5 : store) (nb1 : Z) (mcs : list (outpoint * (Z * bool))) (r : store * Z) : Prop := {
+    pm_blocks : blocks r.1 = blocks s5;
+    pm_txrecs : txrecs r.1 = txrecs s5;
+    pm_debits : debits r.1 = debits s5;
+    pm_unmined : unmined r.1 = unmined s5;
+    pm_unmined_credits : unmined_credits r.1 = unmined_credits s5;
+    pm_unmined_inputs : unmined_inputs r.1 = unmined_inputs s5;
+    pm_locked : locked r.1 = locked s5;
+    pm_unspent : ∀ op', unspent r.1 !! op' = if decide (op' ∈ mcs.*1) then Some (bh, bhash) else unspent s5 !! op';
+    pm_credits_other : ∀ ck', (∀ op v, (op, v) ∈ mcs → ck' ≠ (h, bh, bhash, op.2)) →
+        credits r.1 !! ck' = credits s5 !! ck';
+    pm_credits_new : ∀ op a c, (op, (a, c)) ∈ mcs →
+        credits r.1 !! (h, bh, bhash, op.2) = Some {| c_amt := a; c_spent := false; c_change := c; c_by := None |};
+    pm_bal : r.2 - usum (unspent r.1) = nb1 - usum (unspent s5);
+  }.
+
+  Lemma umb_mc_fold s5 nb1 (mcs : list (outpoint * (Z * bool))) :
+    NoDup mcs.*1 →
+    (∀ op a c, (op, (a, c)) ∈ mcs → op.1 = h ∧ unspent s5 !! op = None ∧ a = amount_of U op) →
+    PostMc s5 nb1 mcs (foldl (umb_mc h bh bhash) (s5, nb1) mcs).
+  Proof.
+    induction mcs as [|[op [a c]] mcs IH] using rev_ind; intros Hnd Hmcs.
+    - simpl. constructor; try reflexivity; simpl.
+      intros op a c Hin. inversion Hin.
+    - rewrite fmap_app in Hnd. simpl in Hnd.
+      apply NoDup_app in Hnd. destruct Hnd as (Hnd & Hop & _).
+      assert (Hopnew : op ∉ mcs.*1). { intros Hin. apply (Hop op Hin). left. }
+      assert (Hmcs' : ∀ op0 a0 c0, (op0, (a0, c0)) ∈ mcs → op0.1 = h ∧ unspent s5 !! op0 = None ∧ a0 = amount_of U op0).
+      { intros op0 a0 c0 Hin. apply (Hmcs op0 a0 c0). apply elem_of_app. left. exact Hin. }
+      specialize (IH Hnd Hmcs').
+      rewrite foldl_snoc. destruct (foldl (umb_mc h bh bhash) (s5, nb1) mcs) as [s1 nb] eqn:Hfold.
+      destruct IH as [Hb Ht Hd Hu Hmc Hmi Hl Hus Hco Hcn Hbal]. simpl in *.
+      destruct (Hmcs op a c) as (Hop1 & Hop_s & Ha); [apply elem_of_app; right; left|].
+      assert (Hmem : ∀ op0 v0, (op0, v0) ∈ mcs ++ [(op, (a, c))] ↔ (op0, v0) ∈ mcs ∨ (op0 = op ∧ v0 = (a, c))).
+      { intros op0 v0. rewrite elem_of_app, elem_of_list_singleton. split; intros [Hin|Heq]; auto.
+        - right. inversion Heq; auto.
+        - right. destruct Heq as [-> ->]. reflexivity. }
+      assert (Hmem1 : ∀ op', op' ∈ (mcs ++ [(op, (a, c))]).*1 ↔ op' ∈ mcs.*1 ∨ op' = op).
+      { intros op'. rewrite fmap_app, elem_of_app. simpl. rewrite elem_of_list_singleton. tauto. }
+      assert (Hin_fst : ∀ op0 v0, (op0, v0) ∈ mcs → op0 ∈ mcs.*1).
+      { intros op0 v0 Hin. apply elem_of_list_fmap. exists (op0, v0). split; [reflexivity|exact Hin]. }
+      assert (Hus_op : unspent s1 !! op = None).
+      { rewrite Hus. destruct (decide (op ∈ mcs.*1)); [contradiction|exact Hop_s]. }
+      constructor; simpl; try assumption.
+      + intros op'. destruct (decide (op' = op)) as [->|Hne].
+        * rewrite lookup_insert. destruct (decide (op ∈ (mcs ++ [(op, (a, c))]).*1)) as [_|Hn]; [reflexivity|].
+          exfalso. apply Hn. apply Hmem1. right. reflexivity.
+        * rewrite lookup_insert_ne by congruence. rewrite Hus.
+          destruct (decide (op' ∈ mcs.*1)) as [Hin|Hin];
+            destruct (decide (op' ∈ (mcs ++ [(op, (a, c))]).*1)) as [Hin'|Hin']; try reflexivity.
+          -- exfalso. apply Hin'. apply Hmem1. left. exact Hin.
+          -- exfalso. apply Hmem1 in Hin'. destruct Hin'; contradiction.
+      + intros ck' Hck'. rewrite lookup_insert_ne.
+        * apply Hco. intros op0 v0 Hin. apply (Hck' op0 v0). apply Hmem. left. exact Hin.
+        * intros Heq. apply (Hck' op (a, c)); [apply Hmem; right; auto|]. symmetry. exact Heq.
+      + intros op0 a0 c0 Hin. apply Hmem in Hin. destruct Hin as [Hin|[-> Heq]].
+        * rewrite lookup_insert_ne; [eapply Hcn; exact Hin|].
+          intros Heq. inversion Heq as [Heq2]. apply Hopnew.
+          destruct (Hmcs' op0 a0 c0 Hin) as (Hop01 & _ & _).
+          replace op with op0; [eapply Hin_fst; exact Hin|]. destruct op, op0; simpl in *; congruence.
+        * inversion Heq; subst a0 c0. apply lookup_insert.
+      + rewrite (usum_insert _ _ _ Hus_op). lia.
+  Qed.
+
+  (** ** [add_credit (Some b)] for a transaction none of whose credits is recorded yet *)
+  Record PostAc (t : tx) (s : store) (cl : list (N * bool)) (r : store) : Prop := {
+    pa_blocks : blocks r = blocks s;
+    pa_txrecs : txrecs r = txrecs s;
+    pa_debits : debits r = debits s;
+    pa_unmined : unmined r = unmined s;
+    pa_unmined_credits : unmined_credits r = unmined_credits s;
+    pa_unmined_inputs : unmined_inputs r = unmined_inputs s;
+    pa_locked : locked r = locked s;
+    pa_unspent : ∀ op', unspent r !! op' =
+        if decide (op'.1 = h ∧ op'.2 ∈ cl.*1) then Some (bh, bhash) else unspent s !! op';
+    pa_credits_other : ∀ ck', (∀ i, i ∈ cl.*1 → ck' ≠ (h, bh, bhash, i)) → credits r !! ck' = credits s !! ck';
+    pa_credits_new : ∀ i chg, (i, chg) ∈ cl →
+        credits r !! (h, bh, bhash, i) = Some {| c_amt := out_amount t i; c_spent := false; c_change := chg; c_by := None |};
+    pa_bal : bal r - usum (unspent r) = bal s - usum (unspent s);
+  }.
+
+  Lemma add_credits_fresh t s (cl : list (N * bool)) :
+    t_id t = h → U !! h = Some t → NoDup cl.*1 →
+    (∀ i, i ∈ cl.*1 → credits s !! (h, bh, bhash, i) = None ∧ unspent s !! (h, i) = None) →
+    PostAc t s cl (add_credits t (bh, bhash) s cl).
+  Proof.
+    intros Hid HUt. unfold add_credits.
+    induction cl as [|[i chg] cl IH] using rev_ind; intros Hnd Hfresh.
+    - simpl. constructor; try reflexivity; simpl.
+      + intros op'. destruct (decide (op'.1 = h ∧ op'.2 ∈ [])) as [[_ Hin]|]; [inversion Hin|reflexivity].
+      + intros i chg Hin. inversion Hin.
+    - rewrite fmap_app in Hnd. simpl in Hnd.
+      apply NoDup_app in Hnd. destruct Hnd as (Hnd & Hi & _).
+      assert (Hinew : i ∉ cl.*1). { intros Hin. apply (Hi i Hin). left. }
+      assert (Hmem1 : ∀ j, j ∈ (cl ++ [(i, chg)]).*1 ↔ j ∈ cl.*1 ∨ j = i).
+      { intros j. rewrite fmap_app, elem_of_app. simpl. rewrite elem_of_list_singleton. tauto. }
+      assert (Hfresh' : ∀ j, j ∈ cl.*1 → credits s !! (h, bh, bhash, j) = None ∧ unspent s !! (h, j) = None).
+      { intros j Hin. apply Hfresh. apply Hmem1. left. exact Hin. }
+      specialize (IH Hnd Hfresh').
+      rewrite foldl_snoc. set (s1 := foldl (λ s' ic, add_credit t (Some (bh, bhash)) ic.1 ic.2 s') s cl) in *.
+      destruct IH as [Hb Ht Hd Hu Hmc Hmi Hl Hus Hco Hcn Hbal].
+      destruct (Hfresh i) as (Hci & Hui); [apply Hmem1; right; reflexivity|].
+      assert (Hc1 : credits s1 !! (h, bh, bhash, i) = None).
+      { rewrite Hco; [exact Hci|]. intros j Hj Heq. inversion Heq; subst j. contradiction. }
+      assert (Hu1 : unspent s1 !! (h, i) = None).
+      { rewrite Hus. simpl. destruct (decide (h = h ∧ i ∈ cl.*1)) as [[_ Hin]|_]; [contradiction|exact Hui]. }
+      assert (Hmem : ∀ j c, (j, c) ∈ cl ++ [(i, chg)] ↔ (j, c) ∈ cl ∨ (j = i ∧ c = chg)).
+      { intros j c. rewrite elem_of_app, elem_of_list_singleton. split; intros [Hin|Heq]; auto.
+        - right. inversion Heq; auto.
+        - right. destruct Heq as [-> ->]. reflexivity. }
+      assert (Hin_fst : ∀ j c, (j, c) ∈ cl → j ∈ cl.*1).
+      { intros j c Hin. apply elem_of_list_fmap. exists (j, c). split; [reflexivity|exact Hin]. }
+      unfold add_credit. simpl. rewrite Hid, Hc1.
+      rewrite bool_decide_eq_false_2 by (intros [x Hx]; discriminate).
+      constructor; simpl; try assumption.
+      + intros op'. destruct (decide (op' = (h, i))) as [->|Hne].
+        * rewrite lookup_insert. simpl.
+          destruct (decide (h = h ∧ i ∈ (cl ++ [(i, chg)]).*1)) as [_|Hn]; [reflexivity|].
+          exfalso. apply Hn. split; [reflexivity|]. apply Hmem1. right. reflexivity.
+        * rewrite lookup_insert_ne by congruence. rewrite Hus.
+          destruct (decide (op'.1 = h ∧ op'.2 ∈ cl.*1)) as [[H1 Hin]|Hin];
+            destruct (decide (op'.1 = h ∧ op'.2 ∈ (cl ++ [(i, chg)]).*1)) as [[H1' Hin']|Hin']; try reflexivity.
+          -- exfalso. apply Hin'. split; [exact H1|]. apply Hmem1. left. exact Hin.
+          -- exfalso. apply Hmem1 in Hin'. destruct Hin' as [Hin'|Heq]; [apply Hin; split; assumption|].
+             apply Hne. destruct op'; simpl in *; congruence.
+      + intros ck' Hck'. rewrite lookup_insert_ne.
+        * apply Hco. intros j Hj. apply Hck'. apply Hmem1. left. exact Hj.
+        * intros Heq. apply (Hck' i); [apply Hmem1; right; reflexivity|]. symmetry. exact Heq.
+      + intros j c Hin. apply Hmem in Hin. destruct Hin as [Hin|[-> ->]].
+        * rewrite lookup_insert_ne; [apply Hcn; exact Hin|].
+          intros Heq. inversion Heq; subst j. apply Hinew. eapply Hin_fst. exact Hin.
+        * apply lookup_insert.
+      + rewrite (usum_insert _ _ _ Hu1).
+        assert (Hamt : amount_of U (h, i) = out_amount t i) by (unfold amount_of; simpl; rewrite HUt; reflexivity).
+        lia.
+  Qed.
+
+  (** ... and for one whose credits are all recorded already *)
+  Lemma add_credit_present t s i chg :
+    is_Some (credits s !! (t_id t, bh, bhash, i)) → add_credit t (Some (bh, bhash)) i chg s = s.
+  Proof. intros Hs. unfold add_credit. rewrite bool_decide_eq_true_2 by exact Hs. reflexivity. Qed.
+
+  Lemma add_credits_present t s (cl : list (N * bool)) :
+    t_id t = h →
+    (∀ i, i ∈ cl.*1 → is_Some (credits s !! (h, bh, bhash, i))) →
+    add_credits t (bh, bhash) s cl = s.
+  Proof.
+    intros Hid. rewrite <- Hid. unfold add_credits.
+    induction cl as [|[i chg] cl IH]; intros Hall; cbn [foldl]; [reflexivity|].
+    rewrite add_credit_present by (apply Hall; left).
+    apply IH. intros j Hj. apply Hall. right. exact Hj.
+  Qed.
 End phase3.
+
+Lemma NoDup_fst_filter {A B} (P : A * B → Prop) `{∀ x, Decision (P x)} (l : list (A * B)) :
+  NoDup l.*1 → NoDup (filter P l).*1.
+Proof.
+  induction l as [|x l IH]; intros Hnd; [constructor|].
+  simpl in Hnd. apply NoDup_cons in Hnd. destruct Hnd as [Hx Hnd].
+  rewrite filter_cons. destruct (decide (P x)); [|apply IH; exact Hnd].
+  simpl. apply NoDup_cons. split; [|apply IH; exact Hnd].
+  intros Hin. apply Hx. apply elem_of_list_fmap in Hin. destruct Hin as (y & Hy & Hin).
+  apply elem_of_list_filter in Hin. destruct Hin as [_ Hin].
+  apply elem_of_list_fmap. exists y. split; assumption.
+Qed.
+
+Lemma add_credit_set_locked t b i chg f s :
+  add_credit t (Some b) i chg (set_locked f s) = set_locked f (add_credit t (Some b) i chg s).
+Proof.
+  unfold add_credit. destruct b as [bh bhash]. simpl.
+  destruct (bool_decide (is_Some (credits s !! (t_id t, bh, bhash, i)))); reflexivity.
+Qed.
+
+Lemma add_credits_unlock_all t b cl ops : ∀ s,
+  add_credits t b (unlock_all s ops) cl = unlock_all (add_credits t b s cl) ops.
+Proof.
+  unfold unlock_all. induction ops as [|op ops IH] using rev_ind; intros s; [reflexivity|].
+  rewrite !foldl_snoc. unfold unlock_raw at 1 3. rewrite <- IH.
+  unfold add_credits. generalize (foldl (λ s' op0, unlock_raw op0 s') s ops). clear.
+  induction cl as [|ic cl IH]; intros s; cbn [foldl]; [reflexivity|].
+  rewrite add_credit_set_locked. apply IH.
+Qed.
+
+(** * G. The mined buckets after [update_mined_balance] + [add_credit]s *)
+
+Section mined.
+  Context (U : universe) (t : tx) (tid : txid) (bh : Z) (bhash : N).
+  Hypothesis HUt : U !! tid = Some t.
+  Hypothesis Hid : t_id t = tid.
+  Hypothesis Hnd_ins : NoDup (t_ins t).
+  Hypothesis Hins_ne : ∀ op, op ∈ t_ins t → op.1 ≠ tid.
+  Hypothesis Hnd_creds : NoDup (t_creds t).*1.
+
+  Lemma amount_of_own i : amount_of U (tid, i) = out_amount t i.
+  Proof. unfold amount_of. simpl. rewrite HUt. reflexivity. Qed.
+
+  Definition mc_moved (s : store) : Prop :=
+    ∀ op a chg, op.1 = tid → (unmined_credits s !! op = Some (a, chg) ↔ (op.2, chg) ∈ t_creds t ∧ a = amount_of U op).
+  Definition mc_none (s : store) : Prop :=
+    ∀ op, op.1 = tid → unmined_credits s !! op = None.
+
+  Lemma mined_post s :
+    (∀ op h' bh', op ∈ t_ins t → unspent s !! op = Some (h', bh') →
+       ∃ cv, credits s !! (op.1, h', bh', op.2) = Some cv ∧ c_amt cv = amount_of U op) →
+    (∀ h' bh' i, credits s !! (tid, h', bh', i) = None) →
+    (∀ i, unspent s !! (tid, i) = None) →
+    mc_moved s ∨ mc_none s →
+    ∃ s5 nb1,
+      PostIn U tid bh bhash s (bal s) (zip (indices (t_ins t)) (t_ins t)) (s5, nb1) ∧
+      PostAc U tid bh bhash t (set_bal (fun _ => nb1) s5) (t_creds t)
+             (add_credits t (bh, bhash) (update_mined_balance t (bh, bhash) s) (t_creds t)).
+  Proof.
+    intros H1 H2 H3 H5.
+    rewrite umb_eq, Hid.
+    pose proof (umb_in_fold U tid bh bhash s (bal s) (zip (indices (t_ins t)) (t_ins t))) as HPI.
+    destruct (foldl (umb_in tid bh bhash) (s, bal s) (zip (indices (t_ins t)) (t_ins t))) as [s5 nb1] eqn:Hf1.
+    assert (HPI' : PostIn U tid bh bhash s (bal s) (zip (indices (t_ins t)) (t_ins t)) (s5, nb1)).
+    { apply HPI.
+      - apply zip_indices_fst_NoDup.
+      - rewrite zip_indices_snd. exact Hnd_ins.
+      - intros i op h' bh' Hin. apply H1.
+        apply elem_of_zip_indices in Hin. eapply elem_of_list_lookup_2. exact Hin. }
+    clear HPI. exists s5, nb1. split; [exact HPI'|].
+    destruct HPI' as [Hb Ht Hu Hmc Hmi Hl Hus Hco Hcs Hdo Hdn Hbal]. simpl in *.
+    set (mcs := filter (λ kv : N * N * (Z * bool), kv.1.1 = tid) (map_to_list (unmined_credits s5))).
+    assert (Hmcs_in : ∀ op a c, (op, (a, c)) ∈ mcs ↔ op.1 = tid ∧ unmined_credits s !! op = Some (a, c)).
+    { intros op a c. unfold mcs. rewrite elem_of_list_filter, elem_of_map_to_list, Hmc. simpl. tauto. }
+    assert (Hus5_own : ∀ op, op.1 = tid → unspent s5 !! op = None).
+    { intros [a i] Ha. simpl in Ha. subst a. rewrite Hus. destruct (decide _); [reflexivity|apply H3]. }
+    assert (Hc5_own : ∀ i, credits s5 !! (tid, bh, bhash, i) = None).
+    { intros i. rewrite Hco; [apply H2|]. intros i0 op h' bh' Hin _ Heq. inversion Heq as [[Heq1 Heq2 Heq3 Heq4]].
+      apply elem_of_zip_indices in Hin. apply elem_of_list_lookup_2 in Hin. apply (Hins_ne op Hin). congruence. }
+    destruct H5 as [HA|HB].
+    - (* the transaction was unmined: its credits move, add_credit finds them *)
+      pose proof (umb_mc_fold U tid bh bhash s5 nb1 mcs) as HPM.
+      destruct (foldl (umb_mc tid bh bhash) (s5, nb1) mcs) as [s6 nb2] eqn:Hf2.
+      assert (HPM' : PostMc U tid bh bhash s5 nb1 mcs (s6, nb2)).
+      { apply HPM.
+        - apply NoDup_fst_filter. apply NoDup_fst_map_to_list.
+        - intros op a c Hin. apply Hmcs_in in Hin. destruct Hin as [Hop Hin].
+          split; [exact Hop|]. split; [apply Hus5_own; exact Hop|].
+          apply (HA op a c Hop) in Hin. tauto. }
+      clear HPM. destruct HPM' as [Hb6 Ht6 Hd6 Hu6 Hmc6 Hmi6 Hl6 Hus6 Hco6 Hcn6 Hbal6]. simpl in *.
+      assert (Hdom : ∀ op', op' ∈ mcs.*1 ↔ op'.1 = tid ∧ op'.2 ∈ (t_creds t).*1).
+      { intros op'. rewrite elem_of_list_fmap. split.
+        - intros ([op [a c]] & -> & Hin). simpl. apply Hmcs_in in Hin. destruct Hin as [Hop Hin].
+          split; [exact Hop|]. apply (HA op a c Hop) in Hin. destruct Hin as [Hin _].
+          apply elem_of_list_fmap. exists (op.2, c). split; [reflexivity|exact Hin].
+        - intros [Hop Hin]. apply elem_of_list_fmap in Hin. destruct Hin as ([i c] & Hi & Hin). simpl in Hi.
+          exists (op', (amount_of U op', c)). split; [reflexivity|]. apply Hmcs_in. split; [exact Hop|].
+          apply (HA op' _ c Hop). split; [rewrite Hi; exact Hin|reflexivity]. }
+      rewrite add_credits_present with (h := tid).
+      + constructor; simpl; try assumption.
+        * intros op'. rewrite Hus6.
+          destruct (decide (op' ∈ mcs.*1)) as [Hin|Hin];
+            destruct (decide (op'.1 = tid ∧ op'.2 ∈ (t_creds t).*1)) as [Hin'|Hin']; try reflexivity.
+          -- exfalso. apply Hin'. apply Hdom. exact Hin.
+          -- exfalso. apply Hin. apply Hdom. exact Hin'.
+        * intros ck' Hck'. apply Hco6. intros op [a c] Hin. apply Hck'.
+          assert (Hin1 : op ∈ mcs.*1) by (apply elem_of_list_fmap; exists (op, (a, c)); split; [reflexivity|exact Hin]).
+          apply Hdom in Hin1. tauto.
+        * intros i chg Hin. rewrite <- amount_of_own.
+          apply (Hcn6 (tid, i) (amount_of U (tid, i)) chg). apply Hmcs_in. split; [reflexivity|].
+          apply (HA (tid, i) _ chg eq_refl). split; [exact Hin|reflexivity].
+      + exact Hid.
+      + intros i Hin. simpl. apply elem_of_list_fmap in Hin. destruct Hin as ([i0 c] & Hi & Hin). simpl in Hi. subst i0.
+        assert (Hx : credits s6 !! (tid, bh, bhash, i) =
+                     Some {| c_amt := amount_of U (tid, i); c_spent := false; c_change := c; c_by := None |});
+          [|rewrite Hx; eexists; reflexivity].
+        apply (Hcn6 (tid, i) (amount_of U (tid, i)) c).
+        apply Hmcs_in. split; [reflexivity|]. apply (HA (tid, i) _ c eq_refl). split; [exact Hin|reflexivity].
+    - (* the transaction was unknown: nothing to move, add_credit records every credit *)
+      assert (Hnil : mcs = []).
+      { destruct mcs as [|[op [a c]] mcs'] eqn:Hm; [reflexivity|]. exfalso.
+        assert (Hin : (op, (a, c)) ∈ (op, (a, c)) :: mcs') by left.
+        apply Hmcs_in in Hin. destruct Hin as [Hop Hin]. rewrite (HB op Hop) in Hin. discriminate. }
+      rewrite Hnil. cbn [foldl].
+      apply add_credits_fresh; try assumption.
+      intros i _. simpl. split; [apply Hc5_own|apply (Hus5_own (tid, i)); reflexivity].
+  Qed.
+
+  (** ** phases (1), (2): block record and transaction record *)
+  Definition blk_upd (btime : Z) (s : store) : store :=
+    match blocks s !! bh with
+    | None => set_blocks (<[bh := {| b_hash := bhash; b_time := btime; b_txs := [tid] |}]>) s
+    | Some br => set_blocks (<[bh := {| b_hash := b_hash br; b_time := b_time br; b_txs := b_txs br ++ [tid] |}]>) s
+    end.
+
+  Definition mined_part (btime : Z) (s : store) : store :=
+    add_credits t (bh, bhash)
+      (update_mined_balance t (bh, bhash) (set_txrecs (<[(tid, bh, bhash) := tt]>) (blk_upd btime s)))
+      (t_creds t).
+
+  Lemma conf_sp_insert cm op m :
+    cm !! tid = None →
+    conf_sp U (<[tid := (bh, bhash)]> cm) op m ↔ conf_sp U cm op m ∨ (m = tid ∧ op ∈ t_ins t).
+  Proof.
+    intros Hnone. unfold conf_sp. destruct (decide (m = tid)) as [->|Hne].
+    - rewrite lookup_insert. unfold tx_ins. rewrite HUt, Hnone. split.
+      + intros [_ Hin]. right. split; [reflexivity|exact Hin].
+      + intros [[[x Hx] _]|[_ Hin]]; [discriminate|]. split; [eexists; reflexivity|exact Hin].
+    - rewrite lookup_insert_ne by congruence. split; [intros Hc; left; exact Hc|].
+      intros [Hc|[Heq _]]; [exact Hc|contradiction].
+  Qed.
+
+  Record MSumm (s sM : store) : Prop := {
+    ms_unspent : ∀ op', unspent sM !! op' =
+        if decide (op'.1 = tid ∧ op'.2 ∈ (t_creds t).*1) then Some (bh, bhash)
+        else if decide (op' ∈ t_ins t) then None else unspent s !! op';
+    ms_credits_other : ∀ ck',
+        (∀ i, i ∈ (t_creds t).*1 → ck' ≠ (tid, bh, bhash, i)) →
+        (∀ op h' bh', op ∈ t_ins t → unspent s !! op = Some (h', bh') → ck' ≠ (op.1, h', bh', op.2)) →
+        credits sM !! ck' = credits s !! ck';
+    ms_credits_spent : ∀ op h' bh' cv,
+        op ∈ t_ins t → unspent s !! op = Some (h', bh') → credits s !! (op.1, h', bh', op.2) = Some cv →
+        ∃ by_, credits sM !! (op.1, h', bh', op.2) =
+               Some {| c_amt := c_amt cv; c_spent := true; c_change := c_change cv; c_by := by_ |};
+    ms_credits_new : ∀ i chg, (i, chg) ∈ t_creds t →
+        credits sM !! (tid, bh, bhash, i) =
+        Some {| c_amt := out_amount t i; c_spent := false; c_change := chg; c_by := None |};
+    ms_debits_other : ∀ dk,
+        (∀ i op, t_ins t !! N.to_nat i = Some op → is_Some (unspent s !! op) → dk ≠ (tid, bh, bhash, i)) →
+        debits sM !! dk = debits s !! dk;
+    ms_debits_new : ∀ i op h' bh', t_ins t !! N.to_nat i = Some op → unspent s !! op = Some (h', bh') →
+        debits sM !! (tid, bh, bhash, i) = Some (amount_of U op, (op.1, h', bh', op.2));
+    ms_bal : bal sM = usum U (unspent sM);
+    ms_blocks : ∀ btime', blocks sM = blocks (blk_upd btime' s) → True;
+  }.
+
+  Lemma mined_summary btime s :
+    (∀ op h' bh', op ∈ t_ins t → unspent s !! op = Some (h', bh') →
+       ∃ cv, credits s !! (op.1, h', bh', op.2) = Some cv ∧ c_amt cv = amount_of U op) →
+    (∀ h' bh' i, credits s !! (tid, h', bh', i) = None) →
+    (∀ i, unspent s !! (tid, i) = None) →
+    mc_moved s ∨ mc_none s →
+    bal s = usum U (unspent s) →
+    MSumm s (mined_part btime s) ∧
+    blocks (mined_part btime s) = blocks (blk_upd btime s) ∧
+    txrecs (mined_part btime s) = <[(tid, bh, bhash) := tt]> (txrecs s) ∧
+    unmined (mined_part btime s) = unmined s ∧
+    unmined_credits (mined_part btime s) = unmined_credits s ∧
+    unmined_inputs (mined_part btime s) = unmined_inputs s ∧
+    locked (mined_part btime s) = locked s.
+  Proof.
+    intros H1 H2 H3 H5 Hbal0. unfold mined_part.
+    set (s2 := set_txrecs <[(tid, bh, bhash):=()]> (blk_upd btime s)).
+    assert (Hc2 : credits s2 = credits s) by (unfold s2, blk_upd; destruct (blocks s !! bh); reflexivity).
+    assert (Hu2 : unspent s2 = unspent s) by (unfold s2, blk_upd; destruct (blocks s !! bh); reflexivity).
+    assert (Hd2 : debits s2 = debits s) by (unfold s2, blk_upd; destruct (blocks s !! bh); reflexivity).
+    assert (Hb2 : bal s2 = bal s) by (unfold s2, blk_upd; destruct (blocks s !! bh); reflexivity).
+    assert (Hmc2 : unmined_credits s2 = unmined_credits s) by (unfold s2, blk_upd; destruct (blocks s !! bh); reflexivity).
+    assert (Hum2 : unmined s2 = unmined s) by (unfold s2, blk_upd; destruct (blocks s !! bh); reflexivity).
+    assert (Hmi2 : unmined_inputs s2 = unmined_inputs s) by (unfold s2, blk_upd; destruct (blocks s !! bh); reflexivity).
+    assert (Hl2 : locked s2 = locked s) by (unfold s2, blk_upd; destruct (blocks s !! bh); reflexivity).
+    assert (Hbl2 : blocks s2 = blocks (blk_upd btime s)) by reflexivity.
+    assert (Htx2 : txrecs s2 = <[(tid, bh, bhash) := tt]> (txrecs s))
+      by (unfold s2, blk_upd; destruct (blocks s !! bh); reflexivity).
+    destruct (mined_post s2) as (s5 & nb1 & HPI & HPA).
+    { rewrite Hc2, Hu2. exact H1. }
+    { rewrite Hc2. exact H2. }
+    { rewrite Hu2. exact H3. }
+    { unfold mc_moved, mc_none. rewrite Hmc2. exact H5. }
+    set (sM := add_credits t (bh, bhash) (update_mined_balance t (bh, bhash) s2) (t_creds t)) in *.
+    destruct HPI as [Hb Ht Hu Hmc Hmi Hl Hus Hco Hcs Hdo Hdn Hbal].
+    destruct HPA as [Hba Hta Hda Hua Hmca Hmia Hla Husa Hcoa Hcna Hbala]. simpl in *.
+    rewrite zip_indices_snd in Hus. rewrite Hu2 in *. rewrite Hc2 in *. rewrite Hd2 in *.
+    assert (Hzip : ∀ op, op ∈ t_ins t → ∃ i, (i, op) ∈ zip (indices (t_ins t)) (t_ins t)).
+    { intros op Hin. apply elem_of_list_lookup in Hin. destruct Hin as [n Hn]. exists (N.of_nat n).
+      apply elem_of_zip_indices. rewrite Nat2N.id. exact Hn. }
+    assert (Hzip' : ∀ i op, (i, op) ∈ zip (indices (t_ins t)) (t_ins t) → op ∈ t_ins t).
+    { intros i op Hin. apply elem_of_zip_indices in Hin. eapply elem_of_list_lookup_2. exact Hin. }
+    split; [|repeat split; congruence].
+    constructor.
+    - intros op'. rewrite Husa, Hus. reflexivity.
+    - intros ck' Hnew Hsp. rewrite Hcoa by exact Hnew. apply Hco.
+      intros i op h' bh' Hin. apply Hsp. eapply Hzip'. exact Hin.
+    - intros op h' bh' cv Hin Hu0 Hcv. destruct (Hzip op Hin) as [i Hi].
+      destruct (Hcs i op h' bh' cv Hi Hu0 Hcv) as [by_ Hby]. exists by_.
+      rewrite Hcoa; [exact Hby|]. intros j _ Heq. inversion Heq as [[Heq1 Heq2 Heq3 Heq4]].
+      apply (Hins_ne op Hin). exact Heq1.
+    - exact Hcna.
+    - intros dk Hdk. rewrite Hda. apply Hdo. intros i op Hin. apply Hdk. apply elem_of_zip_indices. exact Hin.
+    - intros i op h' bh' Hin Hu0. rewrite Hda. eapply Hdn; [|exact Hu0]. apply elem_of_zip_indices. exact Hin.
+    - rewrite Hb2 in Hbal. lia.
+    - intros; exact I.
+  Qed.
+
+  Lemma credited_own i chg : is_credited U (tid, i) chg ↔ (i, chg) ∈ t_creds t.
+  Proof. unfold is_credited, creds_of. simpl. rewrite HUt. reflexivity. Qed.
+
+  Lemma in_creds_fst i : i ∈ (t_creds t).*1 ↔ ∃ chg, (i, chg) ∈ t_creds t.
+  Proof.
+    rewrite elem_of_list_fmap. split.
+    - intros ([j c] & Hj & Hin). simpl in Hj. subst j. exists c. exact Hin.
+    - intros [c Hin]. exists (i, c). split; [reflexivity|exact Hin].
+  Qed.
+
+  Lemma tx_ins_own : tx_ins U tid = t_ins t.
+  Proof. unfold tx_ins. rewrite HUt. reflexivity. Qed.
+
+  Section assemble_mined.
+    Context (btime : Z) (s : store) (cm : gmap N (Z * N)).
+    Hypothesis HM : InvM U s cm.
+    Hypothesis Hnone : cm !! tid = None.
+    Hypothesis Hmc : mc_moved s ∨ mc_none s.
+    Hypothesis E2 : ∀ t' h' b', cm !! t' = Some (h', b') → h' = bh → b' = bhash.
+    Hypothesis E3 : ∀ c op, is_Some (cm !! c) → op ∈ t_ins t → op ∉ tx_ins U c.
+    Hypothesis E4 : ∀ c op, is_Some (cm !! c) → op ∈ tx_ins U c → op.1 ≠ tid.
+
+    Let cm' := <[tid := (bh, bhash)]> cm.
+
+    Lemma cm'_other x : x ≠ tid → cm' !! x = cm !! x.
+    Proof. intros Hne. unfold cm'. apply lookup_insert_ne. congruence. Qed.
+
+    Lemma cm'_own : cm' !! tid = Some (bh, bhash).
+    Proof. unfold cm'. apply lookup_insert. Qed.
+
+    Lemma cm_Some_ne x v : cm !! x = Some v → x ≠ tid.
+    Proof. intros Hx ->. rewrite Hnone in Hx. discriminate. Qed.
+
+    Lemma no_spender_own i m : ¬ conf_sp U cm' (tid, i) m.
+    Proof.
+      intros Hc. apply conf_sp_insert in Hc; [|exact Hnone]. destruct Hc as [[Hm Hin]|[_ Hin]].
+      - apply (E4 m (tid, i) Hm Hin). reflexivity.
+      - apply (Hins_ne (tid, i) Hin). reflexivity.
+    Qed.
+
+    Lemma no_old_spender_of_input op m : op ∈ t_ins t → ¬ conf_sp U cm op m.
+    Proof. intros Hin [Hm Hop]. exact (E3 m op Hm Hin Hop). Qed.
+
+    Lemma pre_H1 : ∀ op h' bh', op ∈ t_ins t → unspent s !! op = Some (h', bh') →
+       ∃ cv, credits s !! (op.1, h', bh', op.2) = Some cv ∧ c_amt cv = amount_of U op.
+    Proof.
+      intros [a i] h' bh' _ Hu. simpl.
+      apply (im_unspent U s cm HM) in Hu. simpl in Hu. destruct Hu as (Hcm & [chg Hcr] & _).
+      destruct (im_credits_complete U s cm HM a h' bh' i chg Hcm Hcr) as [cv Hcv].
+      exists cv. split; [exact Hcv|].
+      destruct (im_credits_sound U s cm HM a h' bh' i cv Hcv) as (_ & _ & Hamt & _). exact Hamt.
+    Qed.
+
+    Lemma pre_H2 : ∀ h' bh' i, credits s !! (tid, h', bh', i) = None.
+    Proof.
+      intros h' bh' i. destruct (credits s !! (tid, h', bh', i)) as [cv|] eqn:Hcv; [|reflexivity].
+      destruct (im_credits_sound U s cm HM tid h' bh' i cv Hcv) as (Hcm & _). rewrite Hnone in Hcm. discriminate.
+    Qed.
+
+    Lemma pre_H3 : ∀ i, unspent s !! (tid, i) = None.
+    Proof.
+      intros i. destruct (unspent s !! (tid, i)) as [[h' bh']|] eqn:Hu; [|reflexivity].
+      apply (im_unspent U s cm HM) in Hu. simpl in Hu. destruct Hu as (Hcm & _). rewrite Hnone in Hcm. discriminate.
+    Qed.
+
+    Lemma pre_debits : ∀ h' bh' j, debits s !! (tid, h', bh', j) = None.
+    Proof.
+      intros h' bh' j. destruct (debits s !! (tid, h', bh', j)) as [[a ck]|] eqn:Hd; [|reflexivity].
+      destruct (im_debits_sound U s cm HM tid h' bh' j a ck Hd) as (Hcm & _). rewrite Hnone in Hcm. discriminate.
+    Qed.
+
+    Lemma mined_InvM : InvM U (mined_part btime s) cm'.
+    Proof.
+      destruct (mined_summary btime s pre_H1 pre_H2 pre_H3 Hmc (im_bal U s cm HM))
+        as (HS & Hbl & Htx & _).
+      set (sM := mined_part btime s) in *.
+      destruct HS as [Sus Sco Scs Scn Sdo Sdn Sbal _].
+      constructor.
+      - (* blocks sound *)
+        intros h br. rewrite Hbl. unfold blk_upd.
+        destruct (blocks s !! bh) as [br0|] eqn:Hbr0; simpl.
+        + destruct (im_blocks_sound U s cm HM bh br0 Hbr0) as (Hne0 & Hnd0 & Hall0).
+          destruct (decide (h = bh)) as [->|Hne].
+          * rewrite lookup_insert. intros Heq. inversion Heq; subst br. simpl. split; [|split].
+            -- destruct (b_txs br0); discriminate.
+            -- apply NoDup_app. split; [exact Hnd0|]. split; [|apply NoDup_singleton].
+               intros x Hx Hx'. apply elem_of_list_singleton in Hx'. subst x.
+               rewrite (Hall0 tid Hx) in Hnone. discriminate.
+            -- intros x Hx. apply elem_of_app in Hx. destruct Hx as [Hx|Hx].
+               ++ rewrite cm'_other; [apply Hall0; exact Hx|]. eapply cm_Some_ne. apply Hall0. exact Hx.
+               ++ apply elem_of_list_singleton in Hx. subst x. rewrite cm'_own.
+                  destruct (b_txs br0) as [|x0 l0] eqn:Hl0; [contradiction|].
+                  assert (Hx0 : cm !! x0 = Some (bh, b_hash br0)) by (apply Hall0; left).
+                  rewrite (E2 x0 bh (b_hash br0) Hx0 eq_refl). reflexivity.
+          * rewrite lookup_insert_ne by congruence. intros Hbr.
+            destruct (im_blocks_sound U s cm HM h br Hbr) as (Hne1 & Hnd1 & Hall1).
+            split; [exact Hne1|]. split; [exact Hnd1|]. intros x Hx.
+            rewrite cm'_other; [apply Hall1; exact Hx|]. eapply cm_Some_ne. apply Hall1. exact Hx.
+        + destruct (decide (h = bh)) as [->|Hne].
+          * rewrite lookup_insert. intros Heq. inversion Heq; subst br. simpl. split; [discriminate|].
+            split; [apply NoDup_singleton|]. intros x Hx. apply elem_of_list_singleton in Hx. subst x. apply cm'_own.
+          * rewrite lookup_insert_ne by congruence. intros Hbr.
+            destruct (im_blocks_sound U s cm HM h br Hbr) as (Hne1 & Hnd1 & Hall1).
+            split; [exact Hne1|]. split; [exact Hnd1|]. intros x Hx.
+            rewrite cm'_other; [apply Hall1; exact Hx|]. eapply cm_Some_ne. apply Hall1. exact Hx.
+      - (* blocks complete *)
+        intros x h bh' Hx. rewrite Hbl. unfold blk_upd.
+        destruct (decide (x = tid)) as [->|Hne].
+        + rewrite cm'_own in Hx. inversion Hx; subst h bh'.
+          destruct (blocks s !! bh) as [br0|] eqn:Hbr0; simpl; rewrite lookup_insert; eexists; (split; [reflexivity|]); simpl.
+          * split; [|apply elem_of_app; right; left].
+            destruct (im_blocks_sound U s cm HM bh br0 Hbr0) as (Hne0 & _ & Hall0).
+            destruct (b_txs br0) as [|x0 l0] eqn:Hl0; [contradiction|].
+            assert (Hx0 : cm !! x0 = Some (bh, b_hash br0)) by (apply Hall0; left).
+            apply (E2 x0 bh (b_hash br0) Hx0 eq_refl).
+          * split; [reflexivity|left].
+        + rewrite cm'_other in Hx by exact Hne.
+          destruct (im_blocks_complete U s cm HM x h bh' Hx) as (br & Hbr & Hbh & Hin).
+          destruct (decide (h = bh)) as [->|Hneh].
+          * rewrite Hbr. simpl. rewrite lookup_insert. eexists. split; [reflexivity|]. simpl.
+            split; [exact Hbh|]. apply elem_of_app. left. exact Hin.
+          * destruct (blocks s !! bh); simpl; rewrite lookup_insert_ne by congruence;
+              exists br; (split; [exact Hbr|split; [exact Hbh|exact Hin]]).
+      - (* txrecs *)
+        intros x h bh'. rewrite Htx.
+        destruct (decide ((x, h, bh') = (tid, bh, bhash))) as [Heq|Hne].
+        + inversion Heq; subst. rewrite lookup_insert, cm'_own. split; [reflexivity|]. intros _. eexists; reflexivity.
+        + rewrite lookup_insert_ne by congruence. rewrite (im_txrecs U s cm HM x h bh').
+          destruct (decide (x = tid)) as [->|Hnex].
+          * rewrite Hnone, cm'_own. split; [discriminate|]. intros Heq. inversion Heq; subst. contradiction.
+          * rewrite cm'_other by exact Hnex. reflexivity.
+      - (* credits sound *)
+        intros x h' bh' i cv Hcv.
+        destruct (decide (x = tid)) as [->|Hnex].
+        + destruct (decide ((h', bh') = (bh, bhash) ∧ i ∈ (t_creds t).*1)) as [[Heq Hi]|Hnot].
+          * inversion Heq; subst h' bh'. apply in_creds_fst in Hi. destruct Hi as [chg Hi].
+            rewrite (Scn i chg Hi) in Hcv. inversion Hcv; subst cv. simpl.
+            split; [apply cm'_own|]. split; [apply credited_own; exact Hi|]. split; [symmetry; apply amount_of_own|].
+            split; [discriminate|]. intros [m Hm]. exfalso. exact (no_spender_own i m Hm).
+          * exfalso. rewrite Sco in Hcv.
+            -- rewrite pre_H2 in Hcv. discriminate.
+            -- intros j Hj Heq. inversion Heq; subst. apply Hnot. split; [reflexivity|exact Hj].
+            -- intros op h0 bh0 Hin _ Heq. inversion Heq as [[Heq1 Heq2 Heq3 Heq4]].
+               apply (Hins_ne op Hin). symmetry. exact Heq1.
+        + destruct (decide ((x, i) ∈ t_ins t ∧ unspent s !! (x, i) = Some (h', bh'))) as [[Hin Hu]|Hnot].
+          * (* spent by the confirmed transaction *)
+            pose proof Hu as Hu'. apply (im_unspent U s cm HM) in Hu'. simpl in Hu'. destruct Hu' as (Hcm & [chg Hcr] & _).
+            destruct (im_credits_complete U s cm HM x h' bh' i chg Hcm Hcr) as [cv0 Hcv0].
+            destruct (Scs (x, i) h' bh' cv0 Hin Hu Hcv0) as [by_ Hby]. simpl in Hby.
+            rewrite Hby in Hcv. inversion Hcv; subst cv. simpl.
+            destruct (im_credits_sound U s cm HM x h' bh' i cv0 Hcv0) as (_ & Hcr0 & Hamt0 & _).
+            split; [rewrite cm'_other by exact Hnex; exact Hcm|]. split; [exact Hcr0|]. split; [exact Hamt0|].
+            split; [|reflexivity]. intros _. exists tid. apply conf_sp_insert; [exact Hnone|]. right. split; [reflexivity|exact Hin].
+          * rewrite Sco in Hcv.
+            -- destruct (im_credits_sound U s cm HM x h' bh' i cv Hcv) as (Hcm & Hcr & Hamt & Hsp).
+               split; [rewrite cm'_other by exact Hnex; exact Hcm|]. split; [exact Hcr|]. split; [exact Hamt|].
+               split.
+               ++ intros Htrue. apply Hsp in Htrue. destruct Htrue as [m Hm]. exists m.
+                  apply conf_sp_insert; [exact Hnone|]. left. exact Hm.
+               ++ intros [m Hm]. apply conf_sp_insert in Hm; [|exact Hnone]. destruct Hm as [Hm|[_ Hin]].
+                  ** apply Hsp. exists m. exact Hm.
+                  ** destruct (c_spent cv) eqn:Hspent; [reflexivity|]. exfalso. apply Hnot. split; [exact Hin|].
+                     apply (im_unspent U s cm HM). simpl. split; [exact Hcm|]. split; [eexists; exact Hcr|].
+                     intros Hex. apply Hsp in Hex. discriminate.
+            -- intros j _ Heq. inversion Heq; subst. contradiction.
+            -- intros op h0 bh0 Hin Hu0 Heq. inversion Heq as [[Heq1 Heq2 Heq3 Heq4]]. apply Hnot.
+               destruct op as [a k]. simpl in *. subst. split; assumption.
+      - (* credits complete *)
+        intros x h bh' i chg Hx Hcr.
+        destruct (decide (x = tid)) as [->|Hnex].
+        + rewrite cm'_own in Hx. inversion Hx; subst h bh'. apply credited_own in Hcr.
+          rewrite (Scn i chg Hcr). eexists; reflexivity.
+        + rewrite cm'_other in Hx by exact Hnex.
+          destruct (im_credits_complete U s cm HM x h bh' i chg Hx Hcr) as [cv0 Hcv0].
+          destruct (decide ((x, i) ∈ t_ins t ∧ unspent s !! (x, i) = Some (h, bh'))) as [[Hin Hu]|Hnot].
+          * destruct (Scs (x, i) h bh' cv0 Hin Hu Hcv0) as [by_ Hby]. simpl in Hby. rewrite Hby. eexists; reflexivity.
+          * rewrite Sco; [rewrite Hcv0; eexists; reflexivity| |].
+            -- intros j _ Heq. inversion Heq; subst. contradiction.
+            -- intros op h0 bh0 Hin Hu0 Heq. inversion Heq as [[Heq1 Heq2 Heq3 Heq4]]. apply Hnot.
+               destruct op as [a k]. simpl in *. subst. split; assumption.
+      - (* unspent *)
+        intros op h' bh'. rewrite Sus.
+        destruct (decide (op.1 = tid ∧ op.2 ∈ (t_creds t).*1)) as [[Hop1 Hop2]|Hnot].
+        + destruct op as [a i]. simpl in *. subst a. rewrite cm'_own. split.
+          * intros Heq. split; [exact Heq|]. split.
+            -- apply in_creds_fst in Hop2. destruct Hop2 as [chg Hc]. exists chg. apply credited_own. exact Hc.
+            -- intros [m Hm]. exact (no_spender_own i m Hm).
+          * intros (Heq & _). exact Heq.
+        + destruct (decide (op ∈ t_ins t)) as [Hin|Hin].
+          * split; [discriminate|]. intros (_ & _ & Hno). exfalso. apply Hno. exists tid.
+            apply conf_sp_insert; [exact Hnone|]. right. split; [reflexivity|exact Hin].
+          * rewrite (im_unspent U s cm HM op h' bh').
+            destruct (decide (op.1 = tid)) as [Hop1|Hop1].
+            -- split.
+               ++ intros (Hcm & _). rewrite Hop1, Hnone in Hcm. discriminate.
+               ++ intros (_ & [chg Hcr] & _). exfalso. apply Hnot. split; [exact Hop1|].
+                  destruct op as [a i]. simpl in *. subst a. apply in_creds_fst. exists chg. apply credited_own. exact Hcr.
+            -- rewrite cm'_other by exact Hop1.
+               assert (Hsp : (∃ m, conf_sp U cm' op m) ↔ (∃ m, conf_sp U cm op m)).
+               { split; intros [m Hm]; exists m.
+                 - apply conf_sp_insert in Hm; [|exact Hnone]. destruct Hm as [Hm|[_ Hin']]; [exact Hm|contradiction].
+                 - apply conf_sp_insert; [exact Hnone|]. left. exact Hm. }
+               rewrite Hsp. reflexivity.
+      - (* debits sound *)
+        intros m h' bh' j a ck Hd.
+        destruct (decide (m = tid)) as [->|Hnem].
+        + destruct (decide ((h', bh') = (bh, bhash))) as [Heq|Hneq].
+          * inversion Heq; subst h' bh'.
+            destruct (t_ins t !! N.to_nat j) as [op|] eqn:Hj.
+            -- destruct (unspent s !! op) as [[ph pbh]|] eqn:Hu.
+               ++ rewrite (Sdn j op ph pbh Hj Hu) in Hd. inversion Hd; subst a ck.
+                  split; [apply cm'_own|]. exists op, ph, pbh.
+                  assert (Hin : op ∈ t_ins t) by (eapply elem_of_list_lookup_2; exact Hj).
+                  apply (im_unspent U s cm HM) in Hu. destruct Hu as (Hcm & Hcr & _).
+                  split; [unfold input_at; rewrite tx_ins_own; exact Hj|]. split; [exact Hcr|].
+                  split; [rewrite cm'_other by (apply Hins_ne; exact Hin); exact Hcm|]. split; reflexivity.
+               ++ exfalso. rewrite Sdo in Hd; [rewrite pre_debits in Hd; discriminate|].
+                  intros i op0 Hi [v Hv] Heq'. inversion Heq'; subst i. rewrite Hj in Hi. inversion Hi; subst op0.
+                  rewrite Hu in Hv. discriminate.
+            -- exfalso. rewrite Sdo in Hd; [rewrite pre_debits in Hd; discriminate|].
+               intros i op0 Hi _ Heq'. inversion Heq'; subst i. rewrite Hj in Hi. discriminate.
+          * exfalso. rewrite Sdo in Hd; [rewrite pre_debits in Hd; discriminate|].
+            intros i op0 _ _ Heq'. inversion Heq'; subst. contradiction.
+        + rewrite Sdo in Hd.
+          * destruct (im_debits_sound U s cm HM m h' bh' j a ck Hd) as (Hcm & op & ph & pbh & Hia & Hcr & Hcmo & Hck & Ha).
+            split; [rewrite cm'_other by exact Hnem; exact Hcm|]. exists op, ph, pbh.
+            split; [exact Hia|]. split; [exact Hcr|].
+            split; [rewrite cm'_other by (eapply cm_Some_ne; exact Hcmo); exact Hcmo|]. split; assumption.
+          * intros i op0 _ _ Heq'. inversion Heq'; subst. contradiction.
+      - (* debits complete *)
+        intros m h bh' j op ph pbh chg Hm Hia Hcr Hop.
+        destruct (decide (m = tid)) as [->|Hnem].
+        + rewrite cm'_own in Hm. inversion Hm; subst h bh'.
+          unfold input_at in Hia. rewrite tx_ins_own in Hia.
+          assert (Hin : op ∈ t_ins t) by (eapply elem_of_list_lookup_2; exact Hia).
+          rewrite cm'_other in Hop by (apply Hins_ne; exact Hin).
+          assert (Hu : unspent s !! op = Some (ph, pbh)).
+          { apply (im_unspent U s cm HM). split; [exact Hop|]. split; [eexists; exact Hcr|].
+            intros [m Hm']. exact (no_old_spender_of_input op m Hin Hm'). }
+          rewrite (Sdn j op ph pbh Hia Hu). eexists; reflexivity.
+        + rewrite cm'_other in Hm by exact Hnem.
+          assert (Hin : op ∈ tx_ins U m) by (eapply elem_of_list_lookup_2; exact Hia).
+          assert (Hop1 : op.1 ≠ tid) by (apply (E4 m op); [rewrite Hm; eexists; reflexivity|exact Hin]).
+          rewrite cm'_other in Hop by exact Hop1.
+          rewrite Sdo; [eapply (im_debits_complete U s cm HM); eassumption|].
+          intros i op0 _ _ Heq'. inversion Heq'; subst. contradiction.
+      - exact Sbal.
+    Qed.
+  End assemble_mined.
+End mined.
+
+(** * H. What [event_ok] gives for a first confirmation *)
+
+Lemma existsb_false_forall {A} (f : A → bool) (l : list A) :
+  existsb f l = false → ∀ x, x ∈ l → f x = false.
+Proof.
+  intros Hex x Hin. destruct (f x) eqn:Hfx; [|reflexivity].
+  assert (Ht : existsb f l = true); [|rewrite Ht in Hex; discriminate].
+  apply existsb_exists. exists x. split; [apply elem_of_list_In; exact Hin|exact Hfx].
+Qed.
+
+Lemma elem_of_conf_list F c : c ∈ conf_list F ↔ is_Some (f_conf F !! c).
+Proof.
+  unfold conf_list. rewrite elem_of_list_In, in_map_iff. split.
+  - intros ([k v] & Hk & Hin). simpl in Hk. subst k. apply elem_of_list_In, elem_of_map_to_list in Hin.
+    rewrite Hin. eexists; reflexivity.
+  - intros [v Hv]. exists (c, v). split; [reflexivity|]. apply elem_of_list_In, elem_of_map_to_list. exact Hv.
+Qed.
+
+Lemma event_ok_confirm_first U F tid h bhash btime t :
+  event_ok U F (Confirm tid h bhash btime) = true →
+  U !! tid = Some t → f_conf F !! tid = None →
+  0 <= h ∧
+  (∀ t' h' b', f_conf F !! t' = Some (h', b') → h' = h → b' = bhash) ∧
+  (∀ c op, is_Some (f_conf F !! c) → op ∈ t_ins t → op ∉ tx_ins U c) ∧
+  (∀ c op, is_Some (f_conf F !! c) → op ∈ tx_ins U c → op.1 ≠ tid) ∧
+  (∀ op, op ∈ t_ins t → known F op.1 = true → ∃ ph pbh, f_conf F !! op.1 = Some (ph, pbh) ∧ ph <= h).
+Proof.
+  intros Hok HUt Hnone. simpl in Hok. rewrite HUt, Hnone in Hok.
+  rewrite !andb_true_iff in Hok. destruct Hok as [[H0 Hhh] [[[HA HB] HC] _]].
+  apply bool_decide_eq_true in H0.
+  assert (Hins : tx_ins U tid = t_ins t) by (unfold tx_ins; rewrite HUt; reflexivity).
+  split; [exact H0|]. split; [|split; [|split]].
+  - intros t' h' b' Hc Heq. unfold height_hash_ok in Hhh. rewrite forallb_forall in Hhh.
+    specialize (Hhh (t', (h', b'))). simpl in Hhh.
+    assert (Hin : In (t', (h', b')) (map_to_list (f_conf F))) by (apply elem_of_list_In, elem_of_map_to_list; exact Hc).
+    apply Hhh in Hin. apply orb_true_iff in Hin. destruct Hin as [Hn|Hb].
+    + apply negb_true_iff, bool_decide_eq_false in Hn. contradiction.
+    + apply bool_decide_eq_true in Hb. exact Hb.
+  - intros c op Hc Hop Hop'. rewrite forallb_forall in HA.
+    assert (Hin : In c (conf_list F)) by (apply elem_of_list_In, elem_of_conf_list; exact Hc).
+    apply HA in Hin. apply negb_true_iff in Hin. unfold shares_input in Hin.
+    assert (Hne : tid ≠ c). { intros <-. rewrite Hnone in Hc. destruct Hc as [x Hx]. discriminate. }
+    rewrite (bool_decide_eq_true_2 _ Hne) in Hin. simpl in Hin. rewrite Hins in Hin.
+    pose proof (existsb_false_forall _ _ Hin op Hop) as Hf. unfold spends in Hf.
+    apply bool_decide_eq_false in Hf. contradiction.
+  - intros c op Hc Hop Heq. rewrite forallb_forall in HB.
+    assert (Hin : In c (conf_list F)) by (apply elem_of_list_In, elem_of_conf_list; exact Hc).
+    apply HB in Hin. apply negb_true_iff in Hin. unfold spends_output_of in Hin.
+    pose proof (existsb_false_forall _ _ Hin op Hop) as Hf. simpl in Hf.
+    apply bool_decide_eq_false in Hf. contradiction.
+  - intros op Hop Hk. rewrite forallb_forall in HC.
+    apply elem_of_list_In in Hop. apply HC in Hop. rewrite Hk in Hop. simpl in Hop.
+    destruct (f_conf F !! op.1) as [[ph pbh]|]; [|discriminate].
+    apply bool_decide_eq_true in Hop. exists ph, pbh. split; [reflexivity|exact Hop].
+Qed.
